@@ -144,7 +144,8 @@ func (s *Signature) decodeTimeAndTimeZone(b []byte) {
 	if err1 != nil || err2 != nil {
 		return
 	}
-	if tzhours < 0 {
+	if timezone[0] == '-' {
+		// the sign belongs to the whole offset: "-0030" has tzhours == 0
 		tzmins *= -1
 	}
 
